@@ -164,7 +164,7 @@ def run(E: Engine, rep: Report, tier: str) -> dict:
                     # sanitised right here?
                     par_ok = False
                     for m in ast.walk(f.node):
-                        if isinstance(m, ast.Subscript) and any(x is n for x in ast.walk(m.value)) and SANITISER in norm(ab.av(m.slice).roots.__repr__()):
+                        if isinstance(m, ast.Subscript) and any(x is n for x in ast.walk(m.value)) and SANITISER in repr(sorted(ab.av(m.slice).roots)):
                             par_ok = True
                     if not par_ok:
                         used_raw.append(n.attr)
